@@ -13,7 +13,7 @@ INF = 10**9
 # family -> (detector, parameter, candidate values, "stricter is" smaller/larger)
 DRIFT_KNOBS = {
     "ADWIN": ("delta", [0.002, 0.01, 0.05, 0.3, 0.9, 1.0], "smaller"),
-    "CUSUM": ("threshold", [0.5, 1, 2, 3, 5, 8, 50], "larger"),
+    "CUSUM": ("threshold", [0.5, 1, 2, 3, 4, 5, 6, 8, 9.5, 12, 50], "larger"),
     "PageHinkley": ("threshold", [0.1, 0.5, 2, 5, 20, 100], "larger"),
     "DDM": ("drift_scale", [1.5, 2, 2.5, 3, 4], "larger"),
     "EDDM": ("drift_thresh", [0.3, 0.5, 0.8, 0.9, 0.95], "smaller"),
@@ -157,7 +157,7 @@ def base_params(draw, name):
     return p
 
 
-def strat_drift(names):
+def strat_drift(names, cusum_known=False):
     def strat(tier):
         @st.composite
         def s(draw):
@@ -174,6 +174,12 @@ def strat_drift(names):
             strict, loose = (lo, hi) if stricter == "smaller" else (hi, lo)
             ncols = draw(spec.ncols())
             items = draw(cat.history(name, p, ncols))
+            if name == "CUSUM" and "target" not in p and (cusum_known or draw(st.booleans())):
+                p["target"] = 0.0
+                p["sd_hat"] = draw(st.sampled_from([0.5, 1.0, 2.0, 4.0]))
+            if name == "CUSUM" and "target" in p and draw(st.integers(0, 3)) > 0:
+                # a known target near the level the stream starts at: the sums then grow slowly through burn-in
+                p["target"] = items[0][0] + draw(st.sampled_from([0.0, 0.5, -0.5, 1.0, -1.0, 2.0])) * p["sd_hat"]
             return {"det": name, "params": p, "knob": knob, "loose": loose, "strict": strict, "ncols": ncols, "items": items, "seed_base": draw(vs.seed_base)}
 
         return s()
@@ -223,6 +229,8 @@ PROPERTY = {
     ],
     "subchecks": [
         _sub("change", ["ADWIN", "CUSUM", "PageHinkley"], 450, 9000),
+        # CUSUM with a known mean / s.d. near the level the stream starts at: the sums are live during burn-in
+        SubCheck("cusum_known_target", check_drift_knob, strategy=strat_drift(["CUSUM"], cusum_known=True), nontrivial=lambda L: "nontrivial" in L, quick=600, thorough=12000, shards_quick=8, describe=_desc),
         _sub("concept", ["DDM", "EDDM", "STEPD"], 450, 9000),
         _sub("lfr", ["LinearFourRates"], 120, 3000),
         _sub("kdq", ["KdqTreeStreaming", "KdqTreeBatch"], 240, 6000),
